@@ -120,6 +120,36 @@ def _ctl_resolve(target):
             'cache': 'ext:functools.cache'}.get(d)
 
 
+def _registration_functions(ctx):
+    """Functions that run at import time as (part of) a decorator: the functions used as decorators anywhere in the package,
+    the functions nested in them, and the methods they call on module-level containers."""
+    out = set()
+    for m in ctx.repo.modules.values():
+        for node in ast.walk(m.tree):
+            if isinstance(node, (ast.FunctionDef, ast.ClassDef)):
+                for d in node.decorator_list:
+                    target = d.func if isinstance(d, ast.Call) else d
+                    ref = ctx.res.resolve(target, m) if isinstance(target, (ast.Name, ast.Attribute)) else None
+                    om, fn = ctx.res.lookup(ref) if ref else (None, None)
+                    if isinstance(fn, ast.FunctionDef):
+                        out.add(fn)
+                        for sub in ast.walk(fn):
+                            if isinstance(sub, ast.FunctionDef):
+                                out.add(sub)
+    # methods invoked by attribute name from those functions (Functions.register)
+    called = set()
+    for fn in list(out):
+        for c in ast.walk(fn):
+            if isinstance(c, ast.Call) and isinstance(c.func, ast.Attribute):
+                called.add(c.func.attr)
+    for m in ctx.repo.modules.values():
+        for qual, fn in m.funcs.items():
+            if '.' in qual and fn.name in called and isinstance(fn._parent, ast.ClassDef) \
+                    and any(ctx.res.resolve(b, m) in ('builtin:dict', 'builtin:list') for b in fn._parent.bases):
+                out.add(fn)
+    return out
+
+
 CONTROL = '''
 from functools import lru_cache
 class K:
@@ -174,6 +204,7 @@ def rule_2(ctx):
                                    '__traceback__, which keeps the frames and their locals alive - memory grows with the '
                                    'number of evaluations')
     # module-level containers that grow outside registration
+    reg_funcs = _registration_functions(ctx)
     for m in ctx.repo.modules.values():
         containers = {name for name, vals in m.assigns.items()
                       if isinstance(vals[-1], (ast.Dict, ast.List, ast.Set)) or (
@@ -191,7 +222,7 @@ def rule_2(ctx):
                 elif isinstance(node, ast.Assign) and any(isinstance(t, ast.Subscript) and isinstance(t.value, ast.Name) for t in node.targets):
                     name = next(t.value.id for t in node.targets if isinstance(t, ast.Subscript) and isinstance(t.value, ast.Name))
                 if name and name in containers and name not in locals_:
-                    registration = fn.name in ('register', 'registerFunction')
+                    registration = fn in reg_funcs
                     ctx.expect(registration, node, f'{qual} grows module-level `{name}`',
                                f'module-level container `{name}` is extended from {qual}(), which is not an import-time '
                                'registration decorator: state accumulates across evaluations')
